@@ -224,6 +224,8 @@ pub fn tiny_flood(rng: &mut Rng, budget: usize) -> Vec<u8> {
 pub fn wellformed_section(rng: &mut Rng, budget: usize) -> Vec<u8> {
     let mut out = Vec::new();
     let n = rng.below(8);
+    // one section in four repeats a (mostly registered) type: the same TLV type two or more times
+    let repeat: Option<u8> = if rng.chance(1, 4) { Some(*rng.pick(&[0x01u8, 0x02, 0x03, 0x04, 0x05, 0x20, 0x21, 0x22, 0x25, 0x30, 0x30, 0x05, 0xE0, 0x00])) } else { None };
     for _ in 0..n {
         let room = budget.saturating_sub(out.len());
         if room < 3 {
@@ -234,7 +236,16 @@ pub fn wellformed_section(rng: &mut Rng, budget: usize) -> Vec<u8> {
             l = 65535;
         }
         let l = l.min(room - 3).min(65535);
-        let kind = if rng.coin() { rng.u8() } else { *rng.pick(&[0x01u8, 0x02, 0x03, 0x04, 0x05, 0x20, 0x21, 0x22, 0x23, 0x24, 0x25, 0x30]) };
+        let kind = match repeat {
+            Some(k) if rng.chance(2, 3) => k,
+            _ => {
+                if rng.coin() {
+                    rng.u8()
+                } else {
+                    *rng.pick(&[0x01u8, 0x02, 0x03, 0x04, 0x05, 0x20, 0x21, 0x22, 0x23, 0x24, 0x25, 0x30])
+                }
+            }
+        };
         if kind == 0x20 && room >= 16 && rng.coin() {
             out.extend_from_slice(&ssl_tlv(rng, room.min(120)));
             continue;
@@ -505,6 +516,7 @@ pub fn v2_streams(tier: Tier, unit: u64) -> Vec<StreamSpec> {
         stream("v2-cut", tier.n(50, 4 * u, 300 * u)),
         stream("v2-mix", tier.n(50, 4 * u, 300 * u)),
         stream("v2-rand", tier.n(100, 20 * u, 2000 * u)),
+        stream("v2-bigbuf", tier.n(2, 160, 3000)),
     ]
 }
 
@@ -605,6 +617,29 @@ pub fn v2_case(stream_name: &str, idx: u64, seed: u64, buf: &mut Vec<u8>) {
                 }
             }
         }
+        "v2-bigbuf" => {
+            // a short header at the front of a receive buffer of more than 64 KiB: sizes around
+            // 16 + 65536, 2 x 65536 and beyond (size arithmetic that wraps at 16 bits)
+            let (vc, fp) = valid_ctl(idx);
+            valid_header_budget(rng, buf, vc, fp, Some(60));
+            let total = match rng.below(8) {
+                0 => 65551,
+                1 => 65552,
+                2 => 65553,
+                3 => 65536 + 16 + rng.below(600) as usize,
+                4 => 65536 + rng.below(16) as usize,
+                5 => 131072 + rng.below(700) as usize,
+                6 => 65536 * 3 + 16 + rng.below(300) as usize,
+                _ => 65000 + rng.below(70000) as usize,
+            };
+            let fill = rng.u8();
+            let old = buf.len();
+            if total > old {
+                buf.resize(total, fill);
+                let n = buf.len();
+                rng.fill(&mut buf[old..(old + 64).min(n)]);
+            }
+        }
         "v2-rand" => {
             // random bytes after a valid signature (and sometimes a valid version nibble)
             buf.clear();
@@ -637,7 +672,7 @@ pub fn tlv_streams(tier: Tier, unit: u64) -> Vec<StreamSpec> {
         stream("tlv-sized", tier.n(20, 1 * u, 50 * u)),
         stream("tlv-rand", tier.n(100, 10 * u, 1500 * u)),
         stream("tlv-flood", tier.n(10, u / 50, 20 * u)),
-        exhaustive("tlv-types", if tier == Tier::Miri { 64 } else { 256 * 3 }),
+        exhaustive("tlv-types", if tier == Tier::Miri { 64 } else { 256 * (3 + TYPE_LENS.len() as u64) }),
         if tier == Tier::Miri { stream("tlv-lens-s", 20) } else { exhaustive("tlv-lens", len_ladder().len() as u64 * 4) },
     ]
 }
@@ -659,6 +694,9 @@ pub fn len_ladder() -> Vec<usize> {
     v.dedup();
     v
 }
+
+/// value lengths crossed with every type byte in `tlv-types`
+pub const TYPE_LENS: [usize; 14] = [2, 4, 5, 8, 16, 31, 32, 64, 127, 128, 129, 255, 256, 1000];
 
 pub const TLV_SIZED: [usize; 8] = [0, 1, 2, 255, 256, 257, 65534, 65535];
 
@@ -714,6 +752,18 @@ pub fn tlv_case(stream_name: &str, idx: u64, seed: u64) -> Vec<u8> {
             match idx / 256 {
                 0 => vec![t, 0, 0],
                 1 => vec![t, 0, 1, rng.u8()],
+                k if k >= 3 => {
+                    // every type byte x a ladder of value lengths (limits that belong to one type)
+                    let l = TYPE_LENS[(k as usize - 3) % TYPE_LENS.len()];
+                    let mut s = if rng.coin() { vec![rng.u8(), 0, 1, 7] } else { Vec::new() };
+                    s.push(t);
+                    s.extend_from_slice(&(l as u16).to_be_bytes());
+                    s.extend(rng.bytes(l));
+                    if rng.coin() {
+                        s.extend_from_slice(&[t, 0, 2, 1, 2]);
+                    }
+                    s
+                }
                 _ => {
                     let mut s = vec![rng.u8(), 0, 2, rng.u8(), rng.u8(), t, 0, 5];
                     s.extend(rng.bytes(5));
@@ -727,7 +777,7 @@ pub fn tlv_case(stream_name: &str, idx: u64, seed: u64) -> Vec<u8> {
             let i = if stream_name == "tlv-lens" { idx } else { rng.below(1200 * 4) };
             let l = ladder[(i / 4) as usize % ladder.len()];
             let mut s = if rng.chance(1, 4) { wellformed_section(rng, 20) } else { Vec::new() };
-            s.push(rng.u8());
+            s.push(if rng.coin() { rng.u8() } else { *rng.pick(&[0x01u8, 0x02, 0x03, 0x04, 0x05, 0x20, 0x21, 0x22, 0x23, 0x24, 0x25, 0x30]) });
             s.extend_from_slice(&(l as u16).to_be_bytes());
             let start = s.len();
             s.resize(start + l, 0);
